@@ -28,9 +28,59 @@ def is_marker_cell(c):
     return isinstance(src, str) and src.startswith(MARK)
 
 
-def signature(ref, nb):
-    """None when nb validates against its declared minor; otherwise a list of signatures.  The two known defect shapes
-    are recognised by repair: undoing exactly that shape must make the notebook valid."""
+def _by_id(nb):
+    """{id: cell} for the cells whose (string) id occurs exactly once in nb"""
+    seen = {}
+    for c in (nb.get('cells') if isinstance(nb, dict) and isinstance(nb.get('cells'), list) else []):
+        i = c.get('id') if isinstance(c, dict) else None
+        if isinstance(i, str): seen.setdefault(i, []).append(c)
+    return {i: cs[0] for i, cs in seen.items() if len(cs) == 1}
+
+
+def _typed_fields(cell, ignore_transients):
+    """the fields that exist for the cell's type only (code: outputs, execution_count; markdown / raw: attachments); with
+    transients ignored the execution counts (the cell's and those of its outputs) do not count as content"""
+    if cell.get('cell_type') != 'code': return pyspec.canon([cell.get('attachments')])
+    outs = copy.deepcopy(cell.get('outputs')); ec = cell.get('execution_count')
+    if ignore_transients:
+        ec = None
+        for o in outs if isinstance(outs, list) else []:
+            if isinstance(o, dict) and 'execution_count' in o: o['execution_count'] = None
+    return pyspec.canon([outs, ec])
+
+
+def retyped_vs_edit_ids(case):
+    """Input class of the known finding 'cell-type-change-merged-with-fields-of-the-other-cell-type', as the ids a merged
+    cell of that class can carry.  Cells of 4.5 notebooks are matched by id alone, whatever their type: a base cell X whose
+    cell_type a side A changed (A still holds X's id) is merged field by field, so A's removal / addition of the fields that
+    exist for one cell type only (code: outputs, execution_count; text: attachments) is weighed against what the other side
+    O did to X:
+      - O kept X's type and changed those fields.  A change of nothing but execution counts is NOT one when transients are
+        ignored (the default): the unchanged tree then lets the removal win and the merged cell is valid, so an invalid
+        cell there has another root cause and must not be attributed to the finding;
+      - O retyped X as well, to another type or to the same type with different such fields;
+      - O no longer holds X's id (X deleted, or given a new id and still aligned by content): the merged cell then carries
+        X's id or the id of a cell of X's type that only O has."""
+    if not isinstance(case, dict): return set()
+    ign = (case.get('args') or {}).get('ignore_transients', True) is not False
+    b, l, r = (_by_id(case.get(k)) for k in ('base', 'local', 'remote'))
+    out = set()
+    for i in b:
+        bt = b[i].get('cell_type')
+        for A, O in ((l, r), (r, l)):
+            if i not in A or A[i].get('cell_type') == bt: continue
+            if i not in O:
+                out.add(i); out.update(j for j in O if j not in b and O[j].get('cell_type') == bt)
+            elif O[i].get('cell_type') != bt:
+                if O[i].get('cell_type') != A[i].get('cell_type') or _typed_fields(O[i], ign) != _typed_fields(A[i], ign): out.add(i)
+            elif _typed_fields(O[i], ign) != _typed_fields(b[i], ign): out.add(i)
+    return out
+
+
+def signature(ref, nb, case=None):
+    """None when nb validates against its declared minor; otherwise a list of signatures.  The known defect shapes
+    are recognised by repair: undoing exactly that shape must make the notebook valid.  case = the merge input
+    (base / local / remote / args): the cell-type-change finding is recognised on the cells of its input class only."""
     key = declared_key(nb)
     if key is None: return ['merged-notebook-declares-unknown-format'], {'nbformat': nb.get('nbformat') if isinstance(nb, dict) else None,
                                                                            'nbformat_minor': nb.get('nbformat_minor') if isinstance(nb, dict) else None}
@@ -52,8 +102,9 @@ def signature(ref, nb):
     if hit: sigs.append('similar-insert-cell-has-dict-valued-id')
     if sigs and ref.is_valid(key, fixed): return sigs, detail
     hit = False
+    retyped = retyped_vs_edit_ids(case)
     for c in cells:
-        if not isinstance(c, dict): continue
+        if not isinstance(c, dict) or not isinstance(c.get('id'), str) or c['id'] not in retyped: continue
         if c.get('cell_type') in ('markdown', 'raw'):
             for f in ('outputs', 'execution_count'):
                 if f in c: del c[f]; hit = True
@@ -129,6 +180,23 @@ def build_tasks(chk, tier, ref):
         else:
             name, b, l, rm = good[(i * 5) % len(good)]; c = dict(r.choice(cli))
         tasks.append({'op': 'nbmerge_out', 'base': b, 'local': l, 'remote': rm, 'args': c}); meta.append((name, c))
+    # one side removes keys of a cell (retypes it code -> markdown / raw, drops display flags), the other side changes only
+    # transient fields of that cell.  Generated and scheduled last, from the same stream, so that everything above keeps
+    # its random choices; C04 only (c04_cases.gen_triples, shared with C09, is unchanged).
+    fam = []
+    for name, b, l, rm in c04_cases.removed_vs_transient_triples(r, 24 if tier == 'quick' else 160):
+        ks = [declared_key(x) for x in (b, l, rm)]
+        if all(ks) and all(ref.is_valid(k, x) for k, x in zip(ks, (b, l, rm))): fam.append((name, b, l, rm))
+        else: skipped += 1
+    for i, (name, b, l, rm) in enumerate(fam):
+        if tier == 'quick': cfgs = c04_cases.sample_configs(r, 6) + [r.choice(cfgs_all) for _ in range(2)]
+        elif name.startswith('hand:') and name.endswith('@4.5'): cfgs = cfgs_all[i % 3::3]     # every configuration on a third of the product
+        else: cfgs = c04_cases.sample_configs(r, 12) + [r.choice(cfgs_all) for _ in range(8)]
+        for c in cfgs:
+            tasks.append({'op': 'merge', 'base': b, 'local': l, 'remote': rm, 'args': c}); meta.append((name, c))
+        if i % (4 if tier == 'quick' else 2) == 0:
+            c = dict(default) if i % 8 == 0 else dict(r.choice(cli))
+            tasks.append({'op': 'nbmerge_out', 'base': b, 'local': l, 'remote': rm, 'args': c}); meta.append((name, c))
     return tasks, meta, skipped
 
 
@@ -162,7 +230,7 @@ def shrink_case(ref, case, sigs):
         res = run_tasks([c])[0]
         nb, _ = observed_nb(c, res)
         if nb is None: return False
-        s, _ = signature(ref, nb)
+        s, _ = signature(ref, nb, c)
         return s is not None and set(s) == set(sigs)
     def cands(c):
         b, l, rm = c['base'], c['local'], c['remote']
@@ -199,7 +267,7 @@ def run(tier, seed):
     hist = {}; nontrivial = set(); raised = {}; judged = 0; coq_cases = []; coq_idx = []
     shrunk = set(); out_of_scope = 0
     for t, (name, cfg), res in zip(tasks, meta, results):
-        kind = name.split(':')[0].split('@')[0].rstrip('0123456789') + ('/cli--out' if t['op'] == 'nbmerge_out' else '')
+        kind = ('rm_vs_transient' if ':rm_vs_transient:' in ':' + name else name.split(':')[0].split('@')[0].rstrip('0123456789')) + ('/cli--out' if t['op'] == 'nbmerge_out' else '')
         hist[kind] = hist.get(kind, 0) + 1
         nb, why = observed_nb(t, res)
         if nb is None:
@@ -209,7 +277,7 @@ def run(tier, seed):
                 chk.violation('nbmerge-out:' + why, {k: t[k] for k in ('op', 'base', 'local', 'remote', 'args')}, {'result': {k: v for k, v in res.items() if k != 'file'}})
             continue
         judged += 1
-        sigs, detail = signature(ref, nb)
+        sigs, detail = signature(ref, nb, t)
         if sigs and (name.startswith('upgrade45') or 'one_sided_id' in name) and declared_key(nb) == 'nb5':
             # one side was re-saved as 4.5 (ids), the other is still id-less: cells the id-less side replaced or inserted
             # cannot carry ids.  Inputs of mixed id regime are not in the property's quantifier; counted, not judged.
@@ -247,7 +315,7 @@ def run(tier, seed):
         chk.broken_obligation('correspondence:validator-run', str(e)[-800:])
     chk.cov.update({
         'evaluations': judged, 'distinct_nontrivial': len(nontrivial),
-        'rule': 'merges (merge_notebooks and nbmerge --out) of valid notebook triples: hand-made minimal triples for every conflict renderer at every minor 4.0-4.5, the fixture triples of nbdime/tests/files, gennb.gen_triple with forced conflicts (incl. sides with pairwise different minors below 5), under sampled (quick) / all 280 CLI + mergetool + union (thorough) strategy configurations; non-trivial = the merged notebook contains at least one rendered conflict (marker cell/output, conflict text, nbdime-conflicts record, LOCAL_/REMOTE_ attachment, combined similar insert), distinct by canonical JSON of (triple, configuration, entry point)',
+        'rule': 'merges (merge_notebooks and nbmerge --out) of valid notebook triples: hand-made minimal triples for every conflict renderer at every minor 4.0-4.5, the fixture triples of nbdime/tests/files, gennb.gen_triple with forced conflicts (incl. sides with pairwise different minors below 5), and the removed-vs-transient family (c04_cases.removed_vs_transient_triples: one side removes keys of an executed code cell -- retypes it to markdown / raw, which removes execution_count and outputs, with or without a source edit, and / or drops the display flags metadata.collapsed / scrolled -- while the other side changes only transient fields of that cell: execution_count from a number or from null, the execution_count of its execute_result outputs, toggled display flags; both orientations; hand-made product at 4.5 where the cell is matched by id, a rotating part at every older minor, generated notebooks at random minors), under sampled (quick) / all 280 CLI + mergetool + union (thorough) strategy configurations; non-trivial = the merged notebook contains at least one rendered conflict (marker cell/output, conflict text, nbdime-conflicts record, LOCAL_/REMOTE_ attachment, combined similar insert), distinct by canonical JSON of (triple, configuration, entry point)',
         'input_distribution': hist, 'merges_that_raised_(C03)': raised, 'invalid_input_triples_skipped': skipped, 'mixed_4.5_upgrade_results_with_idless_cells_(not_judged)': out_of_scope,
         'traces_validated_against_impl': t1 + vc.get('validator_cases', 0) + rc.get('render_cases', 0),
         'validator_on_merged_notebooks': t1, 'validator_on_merged_mismatches': mism,
@@ -270,7 +338,7 @@ def replay(path):
         print(json.dumps({'observed': why, 'result': {k: v for k, v in res.items() if k != 'file'}}, indent=1)[:3000])
         if why.startswith('raised:'): return 0
         print('VIOLATION property=%s replay=%s' % (PROP, path)); return 1
-    sigs, detail = signature(ref, nb)
+    sigs, detail = signature(ref, nb, case)
     print(json.dumps({'signatures': sigs, 'detail': detail, 'merged': nb}, indent=1, default=str)[:4000])
     if sigs:
         print('VIOLATION property=%s replay=%s' % (PROP, path)); return 1
